@@ -262,6 +262,8 @@ type kvRun struct {
 	url      string
 	win      *windowRun
 	fullDefault []sgbucket.FeedEvent // every event the full live feed of the default collection received
+	curCas   map[string]uint64 // (coll/key) -> CAS at the last read-back (0: no row)
+	lostUpdate string          // an optimistic write accepted on top of a version its callback was never shown
 }
 
 // A call made inside another call's read-to-write window.  The enclosing call is a compare-and-swap loop,
@@ -288,13 +290,18 @@ func windowed(kind string) bool {
 // retries after losing the race (cas 0 / Update) or cannot lose it (the nested call leaves the CAS alone):
 // with an explicit CAS, or a callback result validated against the version it was shown, the call fails
 // without a retry and with an error that depends on where the race was lost.
-func windowOK(st Step) bool {
+func windowOK(st Step, live ...string) bool {
 	if st.Nested == nil || st.Op == nil || !windowed(st.Op.Kind) || st.Nested.Cb != nil {
 		return false
 	}
 	touch := st.Nested.Kind == "Touch" || st.Nested.Kind == "GetAndTouchRaw"
 	switch st.Op.Kind {
 	case "WriteUpdateWithXattrs":
+		// an xattr-only write to a live document changes its CAS and nothing the loop branches on: the loop's
+		// conditional write is refused and it starts over with the new version
+		if (st.Nested.Kind == "SetXattrs" || st.Nested.Kind == "DeleteSubDocPaths") && len(live) > 0 && strings.HasPrefix(live[0], "live") {
+			return true
+		}
 		return touch
 	case "WriteSubDoc", "SubdocInsert":
 		return touch || st.Op.CasMode == "zero"
@@ -550,7 +557,12 @@ func (k *kvRun) snapshot() (Term, error) {
 				return nil, err
 			}
 			var dump Term = None()
+			if k.curCas == nil {
+				k.curCas = map[string]uint64{}
+			}
+			k.curCas[cn+"/"+key] = 0
 			if ev, ok := byKey[key]; ok {
+				k.curCas[cn+"/"+key] = ev.Cas
 				dump = Some(feventTerm(ev))
 				hk := cn + "/" + key
 				h := k.lastCas[hk]
@@ -1106,9 +1118,11 @@ func (k *kvRun) doKv(st Step) (opT Term, respT Term, err error) {
 		}
 		opT = C("KWriteUpdateWithXattrs", cbT, macrosTerm(op.Macros))
 		calls := 0
+		var shown uint64
 		co, e := c.WriteUpdateWithXattrs(ctxBg, key, kvXnames, 0, nil, mutateOpts(op.Preserve, op.Macros),
 			func(doc []byte, xattrs map[string][]byte, cas uint64) (sgbucket.UpdatedDoc, error) {
 				calls++
+				shown = cas
 				k.windowPass()
 				if cb.Kind == "fail" || calls > 2 {
 					return sgbucket.UpdatedDoc{}, errors.New("callback failure")
@@ -1124,6 +1138,13 @@ func (k *kvRun) doKv(st Step) (opT Term, respT Term, err error) {
 				return ud, nil
 			})
 		respT = casResp(co, e)
+		if w := k.win; e == nil && w != nil && w.fired && w.err == nil && cb.Kind != "fail" {
+			// the loop's write was accepted: it must have been computed from the version that was current then -
+			// the one the nested call left
+			if cur := k.curCas[st.Coll+"/"+st.Key]; cur != 0 && shown != cur {
+				k.lostUpdate = fmt.Sprintf("WriteUpdateWithXattrs on %s/%s wrote on top of CAS %d, which its callback was never shown (it was last shown CAS %d)", st.Coll, st.Key, cur, shown)
+			}
+		}
 	case "WriteSubDoc":
 		opT = C("KWriteSubDoc", S(op.Path), N(cas), S(*op.Val))
 		respT = casResp(c.WriteSubDoc(ctxBg, key, op.Path, cas, []byte(*op.Val)))
@@ -1319,7 +1340,7 @@ func execKvInner(in kvInput, scratch string, prog *kvProgress) (Case, error) {
 			if st.Op.Cb != nil && st.Op.Cb.NewExp != nil && *st.Op.Cb.NewExp > 0 && *st.Op.Cb.NewExp <= 2592000 {
 				usesRelExp = true
 			}
-			if st.Nested != nil && windowOK(st) {
+			if st.Nested != nil && windowOK(st, k.class[st.Coll+"/"+st.Key]) {
 				ne := st.Nested.Exp
 				if ne > 0 && ne <= 2592000 {
 					usesRelExp = true
@@ -1333,6 +1354,10 @@ func execKvInner(in kvInput, scratch string, prog *kvProgress) (Case, error) {
 			k.win = nil
 			if err != nil {
 				return c, err
+			}
+			if k.lostUpdate != "" {
+				c.Fatal = k.lostUpdate
+				return c, nil
 			}
 			opT = C("SKv", S(st.Coll), S(st.Key), kt)
 			if win != nil && win.fired {
